@@ -50,7 +50,7 @@ fn make(target: &str) -> Option<Runner> {
             |t| {
                 let mut c = c02::gen_case(t);
                 c.cli = false;
-                c.strats.retain(|s| !matches!(s, crate::sea::Strat::PathMmap | crate::sea::Strat::PathNoMmap | crate::sea::Strat::PathFifo));
+                c.strats.retain(|s| !matches!(s, crate::sea::Strat::PathMmap | crate::sea::Strat::PathNoMmap | crate::sea::Strat::PathFifo | crate::sea::Strat::PathHeapLimit { .. }));
                 c
             },
             c02::check,
@@ -112,7 +112,7 @@ fn make(target: &str) -> Option<Runner> {
             |t| {
                 let mut c = c17::gen_case(t);
                 c.cli = false;
-                c.strats.retain(|s| !matches!(s, crate::sea::Strat::PathMmap | crate::sea::Strat::PathNoMmap | crate::sea::Strat::PathFifo));
+                c.strats.retain(|s| !matches!(s, crate::sea::Strat::PathMmap | crate::sea::Strat::PathNoMmap | crate::sea::Strat::PathFifo | crate::sea::Strat::PathHeapLimit { .. }));
                 c
             },
             c17::check,
